@@ -14,7 +14,7 @@ import logging
 
 import kopf
 import vkopf
-from vkopf.driver_api import Ob, split
+from vkopf.driver_api import Ob, split, sample
 from vkopf.loop import ClosedLoop, read_record, read_lhc, progress_keys
 from vkopf.symloop import Deadlock, Diverged, Livelock, cancel_all_others
 from vkopf.world import base_body, FIN, LHC, PLURAL
@@ -28,7 +28,7 @@ ENCODED = [processing.process_resource_event, processing.process_resource_causes
            application.apply, application.patch_and_check, progression.State.store, progression.State.purge,
            diffbase.AnnotationsDiffBaseStorage.store, diffbase.DiffBaseStorage.build]
 META = {
-    'bounds': 'one object; handlers: create + update (+ mandatory delete handler cell; + an update handler on field spec.a with the steps "edit a" / "revert a, edit x" cell); history prefix of <=3 (quick) / <=4 (thorough) '
+    'bounds': 'one object; handlers: create + update (+ mandatory delete handler cell; + an update handler on field spec.a with the steps "edit a" / "revert a, edit x" cell); history prefix of <=3 '
               'steps from {essential edit, graceful restart, kill before apply, kill after apply, downtime with 2 accumulated edits, '
               'next handler invocation fails temporarily, delete request}; quiescence bounded by 14 further events; T-concrete (delays 5 s).',
     'outside': 'unbounded liveness (checked as termination within the bound); several objects; watch-stream level re-listing (C19)',
@@ -184,11 +184,11 @@ def obligations():
     for (a, b, c3) in ((5, 8, 9), (8, 9, 0), (8, 5, 9)):
         obs.append(Ob('h_converge', {'storage': 'smart', 'n': 3, 'field_handler': True, 'pin': {'s0': a, 's1': b, 's2': c3}}, timeout=900,
                       path_timeout=300))
-    obs += split(Ob('h_converge', {'storage': 'annotations', 'n': 3, 'field_handler': True}, tiers=('thorough',), timeout=1800, path_timeout=300),
-                 s0=[5, 8, 0], s1=[8, 9, 5], s2=[9, 8, 1, 3])
-    obs += split(Ob('h_converge', {'storage': 'status', 'n': 3}, tiers=('thorough',), timeout=3000, path_timeout=300), s0=S, s1=S)
-    obs += split(Ob('h_converge', {'storage': 'smart', 'n': 3, 'delete_handler': True}, tiers=('thorough',), timeout=3000, path_timeout=300),
-                 s0=S, s1=S)
-    obs += split(Ob('h_converge', {'storage': 'annotations', 'lifecycle': 'one_by_one', 'n': 3}, tiers=('thorough',), timeout=3000, path_timeout=300),
-                 s0=S, s1=S)
+    obs += sample(Ob('h_converge', {'storage': 'annotations', 'n': 3, 'field_handler': True}, tiers=('thorough',), timeout=900, path_timeout=300),
+                  18, seed=304, s0=[5, 8, 0], s1=[8, 9, 5], s2=[9, 8, 1, 3])
+    obs += sample(Ob('h_converge', {'storage': 'status', 'n': 3}, tiers=('thorough',), timeout=900, path_timeout=300), 36, seed=301, s0=S, s1=S)
+    obs += sample(Ob('h_converge', {'storage': 'smart', 'n': 3, 'delete_handler': True}, tiers=('thorough',), timeout=900, path_timeout=300),
+                  36, seed=302, s0=S, s1=S)
+    obs += sample(Ob('h_converge', {'storage': 'annotations', 'lifecycle': 'one_by_one', 'n': 3}, tiers=('thorough',), timeout=900, path_timeout=300),
+                  36, seed=303, s0=S, s1=S)
     return obs
